@@ -1,15 +1,33 @@
-(** Property C09 — loading translations never panics or hangs (work in progress: parser level). *)
+(** Property C09 — loading translations never panics or hangs, whatever the files contain.
+    String level (ParsedValue::new).  This file holds only property theorems. *)
 From Coq Require Import List NArith Bool.
 Import ListNotations.
-From LI Require Import Base.StrOps Parser.Parse Parser.Json Parser.ParseCheck.
+From LI Require Import Base.StrOps Parser.Parse Parser.Json Parser.ParseCheck Parser.ParseTotal.
 
-(** the pre-fix parser panics on concrete inputs (slices inside a character / past the end) *)
+(** For EVERY string (well-formed or not), every identifier oracle and every JSON oracle that itself
+    neither panics nor returns strings longer than its input, ParsedValue::new returns a value, a
+    descriptive error or (only when an oracle says so) Unmodelled: never a panic - in particular no slice
+    inside a character - and the recursion needs at most [length s + 2] nested calls (fuel adequacy), so
+    it terminates with a depth linear in the input. *)
+Theorem C09_parse_total : forall (idc : str -> idres) (json_args : str -> res (list (str * jarg))),
+  (forall s, safe (json_args s)) ->
+  (forall s l k a, json_args s = Ok l -> In (k, JString a) l -> (length a < length s)%nat) ->
+  forall value, safe (parse idc json_args true (S (S (length value))) value).
+Proof. exact parse_top_safe. Qed.
+
+(** every offset recorded by the closing-tag scan is a character boundary *)
+Theorem C09_scan_boundaries : forall key s pre depth best,
+  best_ok (pre ++ s) best -> best_ok (pre ++ s) (scan_gen true key s (blen pre) depth best).
+Proof. exact scan_bnd. Qed.
+
+(** the pre-fix parser panics on concrete inputs (splits past the end / inside a character) *)
 Theorem C09_parse_old_refuted :
   model_parse_old [36;116;40;97;44]%N = Panic P_split_at /\
   model_parse_old [60;98;62;120;60;47;98;12288;62]%N = Panic P_slice.
 Proof. split; vm_compute; reflexivity. Qed.
 
-(** placeholder until ParseTotal.v is in: the same inputs are handled by the current parser *)
-Theorem C09_parse_total :
-  model_parse [36;116;40;97;44]%N = Err E_UnexpectedToken.
-Proof. vm_compute; reflexivity. Qed.
+(** non-vacuity: the same inputs with the current parser *)
+Example C09_parse_fixed_witness :
+  model_parse [36;116;40;97;44]%N = Err E_UnexpectedToken /\
+  exists v, model_parse [60;98;62;120;60;47;98;12288;62]%N = Ok v.
+Proof. split; [vm_compute; reflexivity | eexists; vm_compute; reflexivity]. Qed.
